@@ -1044,6 +1044,21 @@ func (c *EvalCtx) call(e *ECall) Value {
 			return c.fail("litEq: not strings")
 		}
 		return Bool(s.Lit != nil && t.Lit != nil && *s.Lit == *t.Lit)
+	case "plainJSON":
+		// plainJSON(v): encoding/json renders the value held by the interface v by its default
+		// rules only — no type reachable from its dynamic type has a MarshalJSON or MarshalText
+		// method (value or pointer receiver), every struct field is exported and carries no json
+		// tag. Then the record is the field-by-field image of the value, which is what the
+		// assumed contract of json.Marshal stands for. Decided on the types, no solver involved.
+		i, ok := c.eval(arg(0)).(IfaceV)
+		if !ok || i.Sym != nil || i.Dyn == nil {
+			return c.fail("plainJSON: not a concrete value in an interface")
+		}
+		if why := customJSON(i.Dyn, map[types.Type]bool{}); why != "" {
+			c.e.noteAssumption("plainJSON fails: " + why)
+			return TFalse
+		}
+		return TTrue
 	case "isLiteral":
 		s, ok := c.eval(arg(0)).(StrV)
 		if !ok {
@@ -1871,4 +1886,50 @@ func concreteString(s StrV) (string, bool) {
 func mentionsTaint(x Expr) bool {
 	s := exprStr(x)
 	return strings.Contains(s, "tainted(") || strings.Contains(s, "taintkeys(") || strings.Contains(s, "nolit(") || strings.Contains(s, "maytaint(")
+}
+
+// customJSON reports the first reason why encoding/json would not render t by its default
+// field-by-field rules ("" if none).
+func customJSON(t types.Type, seen map[types.Type]bool) string {
+	if seen[t] {
+		return ""
+	}
+	seen[t] = true
+	for _, mt := range []types.Type{t, types.NewPointer(t)} {
+		ms := types.NewMethodSet(mt)
+		for k := 0; k < ms.Len(); k++ {
+			if n := ms.At(k).Obj().Name(); n == "MarshalJSON" || n == "MarshalText" {
+				return fmt.Sprintf("%s has a %s method", typeStr(t), n)
+			}
+		}
+	}
+	switch u := t.Underlying().(type) {
+	case *types.Struct:
+		for k := 0; k < u.NumFields(); k++ {
+			f := u.Field(k)
+			if !f.Exported() {
+				return fmt.Sprintf("field %s.%s is not exported", typeStr(t), f.Name())
+			}
+			if strings.Contains(u.Tag(k), "json:") {
+				return fmt.Sprintf("field %s.%s carries a json tag", typeStr(t), f.Name())
+			}
+			if why := customJSON(f.Type(), seen); why != "" {
+				return why
+			}
+		}
+	case *types.Pointer:
+		return customJSON(u.Elem(), seen)
+	case *types.Slice:
+		return customJSON(u.Elem(), seen)
+	case *types.Array:
+		return customJSON(u.Elem(), seen)
+	case *types.Map:
+		if why := customJSON(u.Key(), seen); why != "" {
+			return why
+		}
+		return customJSON(u.Elem(), seen)
+	case *types.Interface, *types.Chan, *types.Signature:
+		return fmt.Sprintf("%s is not a plain data type", typeStr(t))
+	}
+	return ""
 }
